@@ -108,8 +108,22 @@ DriftOK(c) == Len(c.wire) > 120 \/ c.modelhdr = FALSE \/ c.ctype # "multipart" \
               LET m == ModelPayloads(c) r == RealPayloads(c) IN
               IF r.err # "" THEN m.err # "" ELSE m = r
 
+\* a recorded execution that stopped before the end of the body (the repository's tests do that): only
+\* the per-step clauses apply (the final comparison is replaced by "ok")
+RECURSIVE JudgePartial(_, _, _, _)
+JudgePartial(c, r, i, parts) ==
+  IF i > Len(r.steps) THEN "ok"
+  ELSE LET s  == r.steps[i]
+           ps == FoldEv(parts, s.ev, c.wire)
+       IN IF r.maxmem >= 0 /\ s.buflen > r.maxmem THEN "BufBound"
+          ELSE IF r.maxparts >= 0 /\ Len(ps) > r.maxparts THEN "PartsBound"
+          ELSE IF c.ref.err = "" /\ ~PrefixOK(ps, RefParts(c)) THEN "PrefixOfRef"
+          ELSE IF PayloadLen(ps) > s.fed THEN "PayloadBound"
+          ELSE JudgePartial(c, r, i + 1, ps)
+
 Verdict(line, c) ==
   CASE line.op = "run"  -> JudgeSteps(c, line, 1, <<>>)
+    [] line.op = "runpart" -> JudgePartial(c, line, 1, <<>>)
     [] line.op = "form" -> JudgeForm(c, line)
     [] line.op = "req"  -> JudgeReq(c, line)
     [] OTHER -> "ok"
